@@ -114,3 +114,21 @@ M("c09.outline-effective-tags-keep-param", "C09", MOD, "        tags = set([tag 
   "        tags = set([tag for tag in self.tags\n                    if not ScenarioOutlineBuilder.is_parametrized_tag(tag)])")
 M("c09.rule-ignores-feature-tags", "C09", MOD, "        feature = self\n        rule.parent = feature\n        rule.feature = feature",
   "        feature = self\n        rule.feature = feature")
+
+# ---- C12 -------------------------------------------------------------------
+# (guarding the container after-hooks by should_run_entity instead of hooks_called is equivalent unless a hook skips the element)
+M("c12.scenario-after-tag-loop-removed", "C12", MOD, '            runner.run_hook("after_scenario", runner.context, self)\n            for tag in self.tags:\n                runner.run_hook("after_tag", runner.context, tag)',
+  '            runner.run_hook("after_scenario", runner.context, self)')
+M("c12.skip-scenario-untested-ignored", "C12", MOD, "        if not skip_scenario_untested:\n            for step in self.all_steps:", "        if True:\n            for step in self.all_steps:")
+M("c12.tag-hook-errors-reraised", "C12", RUN, '                self.hook_failures += 1\n                if "tag" in name:', '                self.hook_failures += 1\n                if "tag" in name and "before" in name and isinstance(e, AssertionError):\n                    raise\n                if "tag" in name:')
+M("c12.hooks-run-in-dry-run", "C12", RUN, "        if not self.config.dry_run and (name in self.hooks):", "        if (name in self.hooks):")
+M("c12.after-step-skipped-on-step-error", "C12", MOD, '        runner.run_hook("after_step", runner.context, self)\n        if self.hook_failed:',
+  '        if self.status is not Status.error:\n            runner.run_hook("after_step", runner.context, self)\n        if self.hook_failed:')
+M("c12.feature-hook-error-not-set", "C12", MOD, "            if self.hook_failed:\n                # MAYBE BETTER: self.set_status(Status.error)\n                self.set_status(Status.hook_error)",
+  "            if self.hook_failed and entity_name == 'rule':\n                # MAYBE BETTER: self.set_status(Status.error)\n                self.set_status(Status.hook_error)")
+M("c12.before-feature-failure-runs-body", "C12", MOD, "            skip_entity_untested = self.hook_failed or runner.aborted\n            should_run_entity = self.should_run()",
+  "            skip_entity_untested = runner.aborted\n            should_run_entity = self.should_run()")
+M("c12.after-all-not-called-after-abort", "C12", RUN, '        self.run_hook("after_all", self.context)\n        try:', '        if not self.aborted:\n            self.run_hook("after_all", self.context)\n        try:')
+M("c12.before-tags-after-before-hook", "C12", MOD, '            for tag in self.tags:\n                runner.run_hook("before_tag", runner.context, tag)\n            runner.run_hook("before_scenario", runner.context, self)',
+  '            runner.run_hook("before_scenario", runner.context, self)\n            for tag in self.tags:\n                runner.run_hook("before_tag", runner.context, tag)')
+M("c12.rule-tag-hook-blames-feature", "C12", RUN, '                    if statement is None:\n                        statement = getattr(context, "rule", None)\n', "")
